@@ -20,6 +20,8 @@ type recipe struct {
 	// needs: preconditions the driver arranges
 	fam   string // parameter family required ("" = any)
 	apply func(x *ctx, d *chaingen.Draft) bool
+	// gate (height-gated recipes): the activation height at which the recipe's verdict flips
+	gate func(g *gates) int32
 }
 
 // ctx gives recipes access to the generator state.
@@ -28,6 +30,11 @@ type ctx struct {
 	g     *chaingen.Gen
 	now   int64
 	coins []chaingen.Spendable // mature, unspent coins at d.Parent
+	gates *gates               // activation heights of the "gates" family (nil otherwise)
+	// a recipe whose verdict depends on the context sets ov and the label it computed
+	ov      bool
+	ovLabel refchain.Validity
+	ovRule  string
 }
 
 // spend builds a valid signed tx spending coin i to a single OP_TRUE output with the given fee.
@@ -107,7 +114,15 @@ func catalogue() []recipe {
 		return true
 	})
 	add("time:mtp", E, "hc:time-too-old", func(x *ctx, d *chaingen.Draft) bool { setTime(d, d.Parent.MTP()); return true })
-	add("time:mtp+1", V, "", func(x *ctx, d *chaingen.Draft) bool { setTime(d, d.Parent.MTP()+1); return true })
+	add("time:mtp+1", V, "", func(x *ctx, d *chaingen.Draft) bool {
+		// under BIP94 the first block of a retarget interval is additionally bounded by its parent's timestamp
+		if iv := int32(x.g.P.TargetTimespan / x.g.P.TargetTimePerBlock); x.g.P.EnforceBIP94 && d.Height%iv == 0 &&
+			d.Parent.MTP()+1 < d.Parent.Msg.Header.Timestamp.Unix()-600 {
+			return false
+		}
+		setTime(d, d.Parent.MTP()+1)
+		return true
+	})
 	add("time:now+7200", V, "", func(x *ctx, d *chaingen.Draft) bool { setTime(d, x.now+7200); return true })
 	add("time:now+7201", E, "hs:time-too-new", func(x *ctx, d *chaingen.Draft) bool { setTime(d, x.now+7201); return true })
 	// ---- body sanity
@@ -231,7 +246,8 @@ func catalogue() []recipe {
 	})
 	sigopsBlock := func(n int) func(x *ctx, d *chaingen.Draft) bool {
 		return func(x *ctx, d *chaingen.Draft) bool {
-			c, ok := x.anyCoin()
+			// a coin whose spend adds no signature operations of its own (a P2WPKH input would add one unit of cost)
+			c, ok := x.trueCoin()
 			if !ok {
 				return false
 			}
@@ -249,6 +265,8 @@ func catalogue() []recipe {
 				}
 			})
 			d.Msg.Transactions = append(d.Msg.Transactions, tx)
+			// the coinbase must not add a signature operation of its own
+			d.Msg.Transactions[0].TxOut[0].PkScript = []byte{0x51}
 			return true
 		}
 	}
@@ -570,5 +588,5 @@ func catalogue() []recipe {
 		}
 		return n > 0
 	})
-	return rs
+	return append(rs, catalogue2()...)
 }
